@@ -13,7 +13,7 @@ import (
 
 func TestMain(m *testing.M) { pbt.RunMain(m) }
 
-var profile = crash.Profile{Sync: "both", MaxOps: 24, PostN: 4}
+var profile = crash.Profile{Sync: "both", MaxOps: 24, PostN: 4, GCBias: true}
 
 func gen(t *rapid.T) crash.Case { return crash.Gen(t, profile) }
 func run(c crash.Case, r *pbt.Rec) error { return crash.Run("C11", c, r) }
